@@ -416,6 +416,7 @@ theorem HW_step (op : Op) (h : HW c) : HW (step c op) := by
   | setSched l d => exact h
   | tick ms => exact h
   | setSmCallback => exact h
+  | setSendOnConnect on => exact h
   | setFlags f => exact HW_setFlags h
   | usend it => exact HW_xmppSend h
   | uraw it => exact HW_xmppSendRaw h
